@@ -111,6 +111,10 @@ def gen_config(rnd, *, seg=None, ndim=None, allow_optional=True, per_axis=True, 
         cfg["seg_layout"] = rnd.choice(["F", "crop", "moveaxis"])
     if seg and rnd.random() < 0.25:
         cfg["pix_dtype"] = rnd.choice(["uint32", "uint64", "intp", "int32"])  # index arrays of a stroke
+    if not seg and rnd.random() < 0.3:
+        cfg["axes_reversed"] = True  # per-axis position keys listed x, y[, z] (only used with pos_mode "axes")
+    if seg and rnd.random() < 0.08 and np.dtype(cfg["seg_dtype"]).itemsize > 1:
+        cfg["seg_big_endian"] = True  # non-native byte order, as some TIFF readers return it
     if not seg and rnd.random() < 0.15:
         cfg["int_first_axis"] = True  # first coordinate an integer (a z-slice index), others fractional
     if allow_stray and seg and not cfg.get("static") and rnd.random() < 0.15:
@@ -367,8 +371,13 @@ class World:
         g = nx.DiGraph()
         seg = None
         if cfg["seg"]:
-            seg = np.zeros((self.frames, *self.shape), dtype=cfg["seg_dtype"])
+            sdt = np.dtype(cfg["seg_dtype"])
+            if cfg.get("seg_big_endian"):
+                sdt = sdt.newbyteorder(">")
+            seg = np.zeros((self.frames, *self.shape), dtype=sdt)
         axes = ["z", "y", "x"][-(self.ndim - 1):]
+        if cfg.get("axes_reversed") and not cfg["seg"] and cfg["pos_mode"] == "axes":
+            axes = axes[::-1]
         order = list(init["nodes"])
         perm = None
         if init.get("perm_seed") is not None:
@@ -545,7 +554,9 @@ class World:
     def stray_now(self) -> dict[int, int]:
         """label -> frame of the detections in the label image that are (still) no nodes"""
         g = self.tracks.graph
-        return {lab: t for lab, t in getattr(self, "stray0", {}).items() if lab not in g}
+        seg = self.tracks.segmentation
+        return {lab: t for lab, t in getattr(self, "stray0", {}).items()
+                if lab not in g and seg is not None and (seg[t] == lab).any()}
 
     def nodes(self) -> list[int]:
         return sorted(int(n) for n in self.tracks.graph.nodes)
@@ -977,6 +988,22 @@ def _gen_add_node(world, rnd, bad) -> dict:
         for i, k in enumerate(pk):
             if i != drop:
                 attrs[k] = round(rnd.random() * 5, 2)
+    stray_here = [lab for lab, ts in world.stray_now().items()]
+    if stray_here and not bad and rnd.random() < 0.3:
+        # an unselected detection becomes a node: its label as id, its frame, a clicked position
+        # and no pixels (they are in the image already)
+        node = _pick(rnd, stray_here)
+        t = world.stray_now()[node]
+        attrs[world.time_key] = t
+        pixels = None
+        idx = np.nonzero(tr.segmentation[t] == node)
+        pk = world.pos_key
+        pos = [float(a.mean()) for a in idx]
+        if isinstance(pk, list):
+            for k, v in zip(pk, pos):
+                attrs[k] = v
+        else:
+            attrs[pk] = pos
     bad_pixels = None
     if bad:
         r = rnd.random()
@@ -1053,9 +1080,12 @@ def _gen_paint(world, rnd, bad=False) -> dict:
     if rnd.random() < 0.06 and (seg[t] == 0).any():
         m = seg[t] == 0  # flood-fill: paint all the background of the frame (no 0 left in it)
     stray_here = [lab for lab, ts in world.stray_now().items() if ts == t]
+    over_stray = bool(stray_here) and rnd.random() < 0.25
     for lab in stray_here:
-        # strokes leave unselected detections alone (the action is only defined on node labels)
-        m = m & (seg[t] != lab)
+        # strokes mostly leave unselected detections alone: the action is only defined on node
+        # labels - a stroke over one is refused (and must then change nothing)
+        if not over_stray:
+            m = m & (seg[t] != lab)
     if not m.any():
         m = seg[t] == 0
         if not m.any():
